@@ -124,7 +124,10 @@ func (ti *TypeInfo) Enter(node ast.Node) {
 			ttype, _ = typeFromAST(*schema, node.TypeCondition)
 			ti.typeStack = append(ti.typeStack, ttype)
 		} else {
-			ti.typeStack = append(ti.typeStack, ti.Type())
+			// without a type condition the fragment applies to the named type
+			// of the enclosing field ("Deep", not "Deep!" or "[Deep]")
+			named, _ := GetNamed(ti.Type()).(Output)
+			ti.typeStack = append(ti.typeStack, named)
 		}
 	case *ast.FragmentDefinition:
 		typeConditionAST := node.TypeCondition
